@@ -464,26 +464,21 @@ class Buildable(Generic[T], metaclass=abc.ABCMeta):
 
   def _set_item_by_index(self, key: int, value: Any):
     """Set positional arguments by index."""
-    key = self.__signature_info__.index_to_key(key, self.__arguments__)
-    positional_num = self.__signature_info__.var_positional_start
-    if positional_num is None:
-      # *args does not exist
-      positional_num = len(self.__signature_info__.parameters)
-      if self.__signature_info__.var_keyword_name:
-        # Exclude **kwargs
-        positional_num -= 1
-
-    # Cannot set item when index is beyond current positional args list length.
-    # Only index that points to *args can be out of range.
-    if (
-        isinstance(key, int)
-        and key >= positional_num
-        and key not in self.__arguments__
-    ):
+    all_positional_args, _ = self.__signature_info__.transform_to_args_kwargs(
+        self.__arguments__,
+        include_pos_or_kw_in_args=True,
+        include_no_value=True,
+    )
+    # Like for Python lists, the index must point into the current positional
+    # arguments list (non-variadic positional parameters, set or unset,
+    # followed by the *args values set so far).
+    index = key + len(all_positional_args) if key < 0 else key
+    if not 0 <= index < len(all_positional_args):
       raise IndexError(
           f'Cannot set positional argument with index {key}'
           ' (index out of range).'
       )
+    key = self.__signature_info__.index_to_key(index, self.__arguments__)
     self._arguments_set_value(key, value)
 
   def _set_item_by_slice(self, slice_key: slice, value: Any):
